@@ -18,9 +18,10 @@ SCENARIOS = ["scenario1_small", "scenario1", "three_nets"]
 
 
 def run_worker(args):
-    scenario, dynamic, seed, episodes, hashseed = args
+    scenario, dynamic, seed, episodes, hashseed = args[:5]
+    defender = args[5] if len(args) > 5 else False
     env = dict(os.environ, PYTHONHASHSEED=str(hashseed), PYTHONPATH=f"{CK.HARNESS}/pyshim:{CK.REPO}:{CK.HARNESS}")
-    r = subprocess.run([CK.PY, os.path.join(CK.HARNESS, "c20_worker.py"), scenario, "1" if dynamic else "0", str(seed), str(episodes)],
+    r = subprocess.run([CK.PY, os.path.join(CK.HARNESS, "c20_worker.py"), scenario, "1" if dynamic else "0", str(seed), str(episodes), "1" if defender else "0"],
                        capture_output=True, text=True, env=env, timeout=900)
     if r.returncode != 0:
         return args, None, (r.stderr or r.stdout)[-600:]
@@ -40,22 +41,31 @@ def correspondence(ctx):
         for dyn in (False, True):
             for seed in seeds:
                 for hs in hashseeds:
-                    jobs.append((sc, dyn, seed, episodes, hs))
+                    jobs.append((sc, dyn, seed, episodes, hs, False))
+    # the global defender switched on (its detection draws are part of the game): one scenario, static and dynamic
+    for dyn in (False, True):
+        for seed in seeds:
+            for hs in hashseeds[:3] if not th else hashseeds[:6]:
+                jobs.append(("scenario1_small", dyn, seed, episodes, hs, True))
     with ThreadPoolExecutor(max_workers=12) as ex:
         results = list(ex.map(run_worker, jobs))
     groups = {}
     hashes = {}
     responses = 0
     for args, out, err in results:
-        sc, dyn, seed, ep, hs = args
+        sc, dyn, seed, ep, hs, gdf = args
         if out is None:
             ctx.stage_errors.append((f"worker {args}", err))
             continue
         if out["errors"]:
             ctx.violations.append({"key": "task error", "what": f"a coordinator task raised during the probe session: {out['errors'][:1]}",
                                    "replay": {"kind": "worker", "args": list(args)}})
-        groups.setdefault((sc, dyn, seed), []).append((hs, out))
-        hashes.setdefault(sc, set()).add(out["hash"])
+        groups.setdefault((sc, dyn, seed, gdf), []).append((hs, out))
+        if not gdf:
+            hashes.setdefault(sc, set()).add(out["hash"])
+        else:
+            ends = [t[1].get("observation", {}).get("info", {}).get("end_reason") for t in out["transcript"] if isinstance(t[1], dict) and t[1].get("observation")]
+            ctx.coverage.setdefault("defender_runs_detections", []).append(sum(1 for e in ends if e and "Fail" in str(e)))
         responses += len(out["transcript"])
     for key, runs in groups.items():
         ref_hs, ref = runs[0]
@@ -68,7 +78,7 @@ def correspondence(ctx):
                 first = next((i for i, (x, y) in enumerate(zip(ref["transcript"], out["transcript"])) if x != y), None)
                 ctx.violations.append({"key": f"transcripts differ across hash seeds ({'dynamic' if key[1] else 'static'} addresses)",
                                        "what": f"scenario {key[0]}, seed {key[2]}: the response sequences of two processes (PYTHONHASHSEED {ref_hs} and {hs}) differ, first at response {first}",
-                                       "replay": {"kind": "worker_pair", "scenario": key[0], "dynamic": key[1], "seed": key[2], "hashseeds": [ref_hs, hs], "episodes": episodes}})
+                                       "replay": {"kind": "worker_pair", "scenario": key[0], "dynamic": key[1], "seed": key[2], "defender": key[3], "hashseeds": [ref_hs, hs], "episodes": episodes}})
     allh = [h for hs in hashes.values() for h in hs]
     if len(set(allh)) < len([s for s in hashes if hashes[s]]):
         ctx.violations.append({"key": "hash collision between scenarios", "what": "two different scenarios announce the same configuration hash",
@@ -90,7 +100,7 @@ def correspondence(ctx):
 def replay(ctx, payload):
     print(json.dumps(payload, indent=1)[:3000])
     if payload.get("kind") == "worker_pair" and "hashseeds" in payload:
-        runs = [run_worker((payload["scenario"], payload["dynamic"], payload["seed"], payload.get("episodes", 3), hs)) for hs in payload["hashseeds"]]
+        runs = [run_worker((payload["scenario"], payload["dynamic"], payload["seed"], payload.get("episodes", 3), hs, payload.get("defender", False))) for hs in payload["hashseeds"]]
         outs = [o for _, o, _ in runs]
         if any(o is None for o in outs):
             print("a worker failed:", [e for _, _, e in runs])
